@@ -177,6 +177,61 @@ def run(rep):
         recs.append({'b': b, 'jumps': rows, 'window': 0, 'sites': w.sites_k, 'G': w.G, 'N': 32, 'R': gen.image_range(w.G),
                      'thr': 2 ** 30, 'pairs': pairs, 'nsolo': nsolo, 'ncoll': ncoll, 'labels': labs, 'spm': spm, 'multi': multi,
                      'meta': f'one jump with {n_part} partners'})
+    # cells that are not periodic in every direction (slab / wire models): Collective is handed the Lattice, and "minimum image" means
+    # the images of THAT lattice.  The cut-off is put, when possible, between a pair's distance in the partially periodic cell and
+    # its (shorter) distance through a non-periodic face, and two simultaneous jumps end on that pair.
+    from pymatgen.core import Lattice as _Lattice
+    n_pbc = 0
+    for k_ in range(24 if quick else 300):
+        b += 1
+        fam = fams[k_ % len(fams)]
+        G, N, S = gen.FAMILIES[fam], 32, 5
+        R = gen.image_range(G)
+        w = gen.SiteWorld(rng, fam, ['chol', 'pmg', 'rot'][k_ % 3], N=N, n_sites=S, radius=0.5, inner_fraction=1.0)
+        pbc = [(True, True, False), (True, False, True), (False, True, True), (True, False, False), (False, False, True), (False, False, False)][k_ % 6]
+        dp = {(a, c): gen.min_image_sq_pbc(G, [w.sites_k[a][i] - w.sites_k[c][i] for i in range(3)], N, R, pbc) / N ** 2 for a in range(S) for c in range(a)}
+        df = {(a, c): gen.min_image_sq(G, [w.sites_k[a][i] - w.sites_k[c][i] for i in range(3)], N, R) / N ** 2 for a in range(S) for c in range(a)}
+        allq = sorted(set(dp.values()) | set(df.values()))
+        gaps = [(df[key], dp[key], key) for key in dp if dp[key] > df[key] * 1.02]
+        forced = None
+        cut = None
+        if gaps and rng.random() < 0.7:
+            lo_, hi_, key = gaps[int(rng.integers(0, len(gaps)))]
+            c2 = (lo_ + hi_) / 2
+            if all(abs(x - c2) > 1e-4 * max(1.0, c2) for x in allq):
+                cut, forced = math.sqrt(c2), key
+        if cut is None:
+            for _ in range(50):
+                cut = float(rng.uniform(0.5, 7.0))
+                if all(abs(x - cut * cut) > 1e-4 * max(1.0, cut * cut) for x in allq):
+                    break
+        nat = int(rng.integers(2, 5))
+        rows = set()
+        while len(rows) < int(rng.integers(2, 12)):
+            a = int(rng.integers(0, nat))
+            s0 = int(rng.integers(0, 30))
+            ss, ds = (int(x) for x in rng.choice(S, size=2, replace=False))
+            rows.add((a, ss, ds, s0, s0 + int(rng.choice([1, 1, 2, 3, 8]))))
+        if forced is not None:
+            ga, gc = forced
+            others = [x for x in range(S) if x not in (ga, gc)]
+            # the partners' other ends are sites far (in the partially periodic cell) from both sites of the chosen pair, when there are any
+            t0 = int(rng.integers(0, 30))
+            rows.add((0, int(rng.choice(others)), ga, t0, t0 + 1))
+            rows.add((1, int(rng.choice(others)), gc, t0, t0 + 1))
+        rows = [list(x) for x in rows]
+        rng.shuffle(rows)
+        window = int(rng.integers(0, 7))
+        tr = world_tr(w, rng)
+        lat = _Lattice(w.M, pbc=pbc)
+        col = Collective(jumps=make_jumps(tr, rows), sites=w.structure, lattice=lat, max_steps=window, max_dist=cut)
+        pairs, nsolo, ncoll = observe(col)
+        labs, spm, multi = aggregations(col, list(w.structure.labels))
+        recs.append({'b': b, 'jumps': rows, 'window': window, 'sites': w.sites_k, 'G': G, 'N': N, 'R': R, 'pbc': [bool(x) for x in pbc],
+                     'thr': int(math.ceil(cut * cut * N * N)), 'pairs': pairs, 'nsolo': nsolo, 'ncoll': ncoll,
+                     'labels': labs, 'spm': spm, 'multi': multi, 'meta': f'{fam} pbc={pbc} cut={cut:.4f} forced={forced}'})
+        n_pbc += 1
+    rep.extra['partially_periodic_cells'] = n_pbc
     # realised histories through Jumps.collective()
     for b in range(n_cases, n_cases + (6 if quick else 60)):
         fam = fams[b % len(fams)]
